@@ -1107,3 +1107,45 @@ Theorem depth_le_cycles c : amo_all c -> depth c <= ncyc c.
 Proof. intros A. unfold depth, ncyc. apply maxl_le_nth. intros q.
   apply (depth_cycles (cycles c) (repeat 0 (nq c)) 0 A). intros q'.
   clear. revert q'. induction (nq c) as [|n IH]; intros [|q']; simpl; auto. Qed.
+
+(* ---- front / rear against first_on / last_on ------------------------------------------------- *)
+(* an operation has no predecessor iff it is the first operation on every one of its qudits *)
+Theorem no_prev_first_on c i o : amo_all c -> wf_locs c -> In o (cycle_at c i) ->
+  (prevs c (pt_of i o) = [] <-> forall q, In q (o_loc o) -> first_on c q = Some (pt_of i o)).
+Proof. intros A W Ho. rewrite prevs_nil by auto. split; intros H q Hq.
+  - apply first_on_some. exists i, o. split; [apply get_cell_amo; auto|]. split; auto.
+    apply prev_on_none. apply H. exact Hq.
+  - apply prev_on_none. specialize (H q Hq). apply first_on_some in H as (j & o' & G & E & N).
+    inversion E; subst j. exact N. Qed.
+
+Theorem no_next_last_on c i o : amo_all c -> wf_locs c -> In o (cycle_at c i) ->
+  (nexts c (pt_of i o) = [] <-> forall q, In q (o_loc o) -> last_on c q = Some (pt_of i o)).
+Proof. intros A W Ho. rewrite nexts_nil by auto. split; intros H q Hq.
+  - apply last_on_some. exists i, o. split; [apply get_cell_amo; auto|]. split; auto.
+    apply next_on_none. apply H. exact Hq.
+  - apply next_on_none. specialize (H q Hq). apply last_on_some in H as (j & o' & G & E & N).
+    inversion E; subst j. exact N. Qed.
+
+(* ================================================================================== *)
+(* E. the hypotheses are satisfiable: a 3-qudit circuit with 5 operations in 3 cycles    *)
+(* ================================================================================== *)
+Example views_nonvacuous :
+  let h0 := Op false 1 [0] [] [2] [] in
+  let cx21 := Op false 4 [2;1] [] [2;2] [] in
+  let cx01 := Op false 4 [0;1] [] [2;2] [] in
+  let x2 := Op false 2 [2] [] [2] [] in
+  let cx10 := Op false 4 [1;0] [] [2;2] [] in
+  let c := mkC 3 [2;2;2] [[cx21; h0]; [cx01]; [x2; cx10]] in
+  Inv c /\ wf_locs c /\ locs_in_range c
+  /\ front c = [(0,0); (0,2)] /\ rear c = [(2,1); (2,2)]
+  /\ nexts c (0,2) = [(1,0); (2,2)] /\ prevs c (1,0) = [(0,0); (0,2)] /\ prevs c (2,2) = [(0,2)]
+  /\ first_on c 1 = Some (0,2) /\ last_on c 1 = Some (2,1)
+  /\ dag_iter c = [(0, Some h0); (0, Some cx21); (1, Some cx01); (2, Some cx10); (2, Some x2)]
+  /\ num_operations c = 5 /\ depth c = 3 /\ active_qudits c = [0;1;2]
+  /\ graph_info c = [((1,2), 1); ((0,1), 2)] /\ map snd (gate_counts c) = [1; 3; 1].
+Proof. cbv zeta. split; [|split; [|split]].
+  - unfold Inv. cbn [cycles]. repeat (apply Forall_cons; [split; [discriminate|intros [|[|[|q]]]; simpl; lia]|]).
+    apply Forall_nil.
+  - repeat constructor; discriminate.
+  - unfold locs_in_range. cbn [cycles nq o_loc]. repeat (constructor; try lia).
+  - vm_compute. repeat split; reflexivity. Qed.
